@@ -418,7 +418,10 @@ public:
 #endif // INTEGER_THROW_ARITHMETIC_EXCEPTION
 				}
 			}
-			if constexpr (sizeof(BlockType) == 1) {
+			if (rhs._block[0] == ALL_ONES) { // division by -1 negates modulo 2^nbits: the native division would overflow on the most negative value
+				_block[0] = static_cast<bt>(0 - _block[0]);
+			}
+			else if constexpr (sizeof(BlockType) == 1) {
 				_block[0] = static_cast<bt>(std::int8_t(_block[0]) / std::int8_t(rhs._block[0]));
 			}
 			else if constexpr (sizeof(BlockType) == 2) {
@@ -447,7 +450,10 @@ public:
 				std::cerr << "integer_divide_by_zero\n";
 #endif // INTEGER_THROW_ARITHMETIC_EXCEPTION
 			}
-			if constexpr (sizeof(BlockType) == 1) {
+			if (rhs._block[0] == ALL_ONES) { // the remainder of a division by -1 is 0: the native remainder would overflow on the most negative value
+				_block[0] = 0;
+			}
+			else if constexpr (sizeof(BlockType) == 1) {
 				_block[0] = static_cast<bt>(std::int8_t(_block[0]) % std::int8_t(rhs._block[0]));
 			}
 			else if constexpr (sizeof(BlockType) == 2) {
